@@ -33,6 +33,12 @@ def make_cases(rng, tier, n):
             c["ops"] = [("commit", rng.choice("lc"), []), ("fetch", False, []), ("status", []), ("push", False, []), ("fetch", False, []),
                         ("pull", rng.choice("lc"), False, [])]
             c["hist_info"] = dict(edits_between=False)
+        elif i % 20 == 9:
+            # the process runs under another umask (077: private, 027: group-readable, 000): objects are 0444 all the same
+            c["env"] = dict(c.get("env") or {}, VERIF_UMASK=["077", "027", "000", "277"][(i // 20) % 4])
+            c["ops"] = [("commit", "c" if (i // 20) % 2 == 0 else "l", []), ("status", []), ("push", False, []), ("wipecache",), ("fetch", False, []),
+                        ("clone", [b"workdir", b"workdir/inner"] if c.get("cwd") else []), ("checkout", rng.choice("lc"), False, []), ("commit", "c", [])]
+            c["hist_info"] = dict(edits_between=False)
         elif i % 20 == 17:
             # a tracked file (an output, or an entry of a directory output) is a link with an absolute target to a live regular file
             # OUTSIDE the cache ("the data set lives on a shared disk"), on the cache's file system: whatever commit does with it,
